@@ -1390,7 +1390,7 @@ def st_recipe(draw, ms, probe):  # noqa: C901, PLR0912, PLR0915
             if not list_root:
                 opts.append(["saturator"])
                 if ms["kind"] == "initkw":
-                    opts += [["kwargs"]] * 4
+                    opts += [["kwargs"]] * 10
                 if dict_fields:
                     opts += [["field", dict_fields[0]], ["field", dict_fields[-1]]]
                     if len(dict_fields) > 1:
